@@ -28,6 +28,9 @@ RULES = {
     'C09.e': 'no argument of a client command can carry a line break into the line-based node-to-node stream (whose reader runs every '
              'line with administrator rights): every String field a parser puts into a Request comes from text that passed a '
              'line-break-removing call, in the parser or in Request::parse before the parsers are dispatched',
+    'C09.f': 'a permission statement grants only the key patterns written in it: the parser of a statement builds the pattern list from the '
+             'statement\'s own text, no literal pattern is injected (a statement with no patterns must not turn into "every key": a removed '
+             'permission list reads back as such a statement)',
     'C09.d': 'credentials are not carried over: a transport that accepts requests in a loop creates a fresh Client inside that '
              'loop; has_permission reads the permission list from Database.map on every call',
 }
@@ -74,6 +77,7 @@ def is_shared(kind, info):
 def run(ck, m):
     _run(ck, m)
     framing_rule(ck, m)
+    permission_parser_rule(ck, m)
 
 
 def _run(ck, m):
@@ -683,3 +687,34 @@ def framing_rule(ck, m, rule='C09.e'):
                                   'node link, and the rest (`set k\\nset-primary x` -> `set-primary -1 x`) is executed by the other nodes '
                                   'as a command of the administrator connection' % (rv['variant'], f['name']), '%s:%s' % (sb.file, sb.line))
     ck.floor(rule, n, 40, 'String fields of Request built by the parsers')
+
+
+
+def permission_parser_rule(ck, m):
+    from nl.locks import backward_slice
+    P = m.prog
+    n = 0
+    for b in P.user_bodies():
+        if b.kind not in ('fn', 'method') or b.locals[0] != 'nundb::bo::Permission' or b.argc != 1 or not core.is_str_ty(b.locals[1]):
+            continue
+        for bl in b.blocks:
+            for s in bl['s']:
+                if s['k'] == 'assign' and s['r']['k'] == 'agg' and s['r'].get('adt', '').endswith('bo::Permission') and 'keys' in s['r'].get('fields', []):
+                    n += 1
+                    op = s['r']['ops'][s['r']['fields'].index('keys')]
+                    # `vec![lit]` is built through a raw box write, which no def-use chain shows: every string literal of the
+                    # parser (log lines aside) other than the separators is treated as a possible injected pattern
+                    lits = set()
+                    for c, tc in b.calls():
+                        if is_log(tc):
+                            continue
+                        for a_ in tc['args']:
+                            for r in origins(b, a_):
+                                s_ = core.const_str(r)
+                                if isinstance(s_, str) and s_.strip(' ,|') != '':
+                                    lits.add(s_)
+                    ck.ob('C09.f', short(b.id), 'patterns-from-the-statement-only', not lits,
+                          'the pattern list of a permission is built from the statement text only' if not lits else
+                          'the permission parser injects the literal pattern(s) %s: a statement without patterns — which is also what a removed '
+                          'permission list (tombstone text) parses to — grants access to every key' % sorted(lits), '%s:%s' % (b.file, b.line))
+    ck.floor('C09.f', n, 1, 'permission statement parsers')
